@@ -2,12 +2,12 @@ package main
 
 import (
 	"bytes"
-	"net"
-	"net/netip"
 	"fmt"
 	"go/ast"
 	"go/constant"
 	"go/types"
+	"net"
+	"net/netip"
 	"os"
 	"regexp"
 	"sort"
